@@ -1232,15 +1232,15 @@ func (vc *VC) execInstr(act *Act, st *State, ins ssa.Instruction) {
 		// zeroed contents
 		zi := vc.fresh("zrow", "(Array Int Int)")
 		vc.assume(st, fmt.Sprintf("(forall ((j Int)) (! (= (select %s j) 0) :pattern ((select %s j))))", zi, zi))
-		st.mi = vc.def("MI", memSort, fmt.Sprintf("(store %s %s %s)", st.mi, ref, zi))
-		st.mr = vc.def("MR", memSort, fmt.Sprintf("(store %s %s %s)", st.mr, ref, zi))
+		st.mi = vc.storeRow("MI", st.mi, ref, zi)
+		st.mr = vc.storeRow("MR", st.mr, ref, zi)
 		act.env[i] = SliceV{ref, "0", ln, cp}
 	case *ssa.MakeMap:
 		p := vc.allocMapObj(st, i.Type())
 		zi := vc.fresh("zrow", "(Array Int Int)")
 		vc.assume(st, fmt.Sprintf("(forall ((j Int)) (! (= (select %s j) 0) :pattern ((select %s j))))", zi, zi))
-		st.mi = vc.def("MI", memSort, fmt.Sprintf("(store %s %s %s)", st.mi, p.ref, zi))
-		st.mr = vc.def("MR", memSort, fmt.Sprintf("(store %s %s %s)", st.mr, p.ref, zi))
+		st.mi = vc.storeRow("MI", st.mi, p.ref, zi)
+		st.mr = vc.storeRow("MR", st.mr, p.ref, zi)
 		act.env[i] = MapV{p.ref}
 	case *ssa.MakeChan:
 		p := vc.allocObj(st, i.Type().Underlying(), true)
@@ -1351,6 +1351,10 @@ func (vc *VC) unop(act *Act, st *State, i *ssa.UnOp) {
 		p := vc.val(act, i.X).(PtrV)
 		vc.nilCheck(act, st, p, i.Pos(), "load")
 		act.env[i] = vc.load(st, p, i.Type())
+		if fa, ok := i.X.(*ssa.FieldAddr); ok {
+			// reads of a named field can be matched by sites (`match load T.f`): arg0 is the value read
+			vc.siteCheck(act, st, "load "+vc.storeWhat(fa), i, nil, []Val{act.env[i]}, []types.Type{i.Type()}, vc.val(act, fa.X), fa.X.Type())
+		}
 	case token.ARROW:
 		ch := vc.val(act, i.X)
 		vc.fireEvent(act, st, "recv", "", nil, []Val{ch}, i)
@@ -1457,12 +1461,21 @@ func (vc *VC) binop(act *Act, st *State, i *ssa.BinOp) Val {
 		case token.SUB:
 			return IntV{fmt.Sprintf("(- %s %s)", a.t, b.t)}
 		case token.MUL:
+			if !isConstInt(a.t) && !isConstInt(b.t) {
+				vc.nonlinear = true
+			}
 			return IntV{fmt.Sprintf("(* %s %s)", a.t, b.t)}
 		case token.QUO:
+			if !isConstInt(b.t) {
+				vc.nonlinear = true
+			}
 			vc.safety(act, st, "div", not(eq(b.t, "0")), i.Pos())
 			// Go truncates toward zero
 			return IntV{vc.def("q", "Int", fmt.Sprintf("(ite (>= %s 0) (div %s %s) (- (div (- %s) %s)))", a.t, a.t, b.t, a.t, b.t))}
 		case token.REM:
+			if !isConstInt(b.t) {
+				vc.nonlinear = true
+			}
 			vc.safety(act, st, "div", not(eq(b.t, "0")), i.Pos())
 			return IntV{vc.def("rm", "Int", fmt.Sprintf("(ite (>= %s 0) (mod %s %s) (- (mod (- %s) %s)))", a.t, a.t, b.t, a.t, b.t))}
 		case token.EQL:
